@@ -36,6 +36,8 @@ func c18AllWriteOpts() []c18Opts {
 			}
 		}
 	}
+	out = append(out, c18Opts{Pretty: -1, Depth: -1, JSON: 0, Margin: -1, Color: -1, TimeFormat: "second"},
+		c18Opts{Pretty: -1, Depth: 0, JSON: 1, Margin: -1, Color: -1, TimeFormat: "nano", TimeWrap: "t"})
 	return out
 }
 
